@@ -29,6 +29,7 @@ import logging
 import signal
 import socket
 import struct
+import sys
 import traceback
 
 import gen_c03
@@ -131,6 +132,17 @@ def key_pool():
         from ipv8.keyvault.crypto import default_eccrypto
         _KEYS = [default_eccrypto.generate_key("curve25519") for _ in range(3)]
     return _KEYS
+
+
+_SKEYS = None
+
+
+def sender_keys():
+    global _SKEYS
+    if _SKEYS is None:
+        from ipv8.keyvault.crypto import default_eccrypto
+        _SKEYS = [default_eccrypto.generate_key("curve25519") for _ in range(4)]
+    return _SKEYS
 
 
 TEXT = ["", "a", "host.example", "é", "日本", "\U0001f600x", "tribler.org", "x" * 30]
@@ -520,7 +532,7 @@ def _real_ok(ser, classes, data, off) -> bool:
 class World:
     """one mock endpoint with real overlays on it, every registry call mirrored as a model line"""
 
-    def __init__(self, ctx: Ctx, name: str):
+    def __init__(self, ctx: Ctx, name: str, model_net: bool = False):
         from ipv8.test.mocking.endpoint import AutoMockEndpoint
         self.ctx = ctx
         self.name = name
@@ -537,7 +549,16 @@ class World:
         self.crypto_state: dict[int, tuple] = {}
         self.current = b""
         self.harness_errors: list[str] = []
+        from ipv8.peerdiscovery.network import Network
+        self.network = Network()            # one Network shared by every overlay on the endpoint, as in a real IPv8 node
+        self.model_net = model_net          # True: every Network mutation is mirrored into the model (sender events compared)
+        self.peers: dict[int, object] = {}  # oid -> Peer object created by the harness
+        self.peer_ids: dict[int, int] = {}
+        self.scripts: dict[int, list] = {}  # lid -> registry calls the listener makes while handling a datagram
+        self.in_dispatch = False
+        self.last_called = 0
         self._wrap_registry()
+        self._wrap_network()
 
     # ---- ids and registry mirroring
     def lid(self, obj) -> int:
@@ -557,27 +578,102 @@ class World:
 
         def add_listener(listener):
             add(listener)
-            self.emit(f"add {self.lid(listener)}")
+            if not self.in_dispatch:
+                self.emit(f"add {self.lid(listener)}")
             self.registered.append((self.lid(listener), None))
 
         def add_prefix_listener(listener, prefix):
             addp(listener, prefix)
-            self.emit(f"addp {self.lid(listener)} {hx(prefix)}")
+            if not self.in_dispatch:
+                self.emit(f"addp {self.lid(listener)} {hx(prefix)}")
             self.registered.append((self.lid(listener), bytes(prefix)))
 
         def remove_listener(listener):
             rm(listener)
-            self.emit(f"rm {self.lid(listener)}")
+            if not self.in_dispatch:
+                self.emit(f"rm {self.lid(listener)}")
             self.registered = [(l, p) for l, p in self.registered if l != self.lid(listener)]
         ep.add_listener, ep.add_prefix_listener, ep.remove_listener = add_listener, add_prefix_listener, remove_listener
+
+    # ---- the shared Network: sender lookups observed, harness-made mutations mirrored
+    def _wrap_network(self):
+        net = self.network
+        real = net.get_verified_by_address
+
+        def get_verified_by_address(address):
+            r = real(address)            # may raise: that is what the oracle around notify_listeners reports
+            if self.model_net:
+                oid = self.peer_ids.get(id(r)) if r is not None else None
+                self.events.append(f"s{self.last_called}:{oid if r is not None else 'none'}")
+            return r
+        net.get_verified_by_address = get_verified_by_address
+
+    @staticmethod
+    def addr_bytes(a) -> bytes:
+        return f"{a[0]}:{a[1]}".encode()
+
+    def new_peer(self, key_index: int, addr):
+        from ipv8.messaging.interfaces.udp.endpoint import UDPv4Address
+        from ipv8.peer import Peer
+        p = Peer(sender_keys()[key_index].pub(), UDPv4Address(*addr))
+        oid = len(self.peers) + 1
+        self.peers[oid] = p
+        self.peer_ids[id(p)] = oid
+        self.emit(f"net new {oid} {key_index + 1} {hx(self.addr_bytes(addr))}")
+        return oid
+
+    def net_op(self, op: str, oid: int = 0, addr=None):
+        from ipv8.messaging.interfaces.udp.endpoint import UDPv4Address
+        n = self.network
+        if op == "addv":
+            n.add_verified_peer(self.peers[oid])
+            self.emit(f"net addv {oid}")
+        elif op == "rmp":
+            n.remove_peer(self.peers[oid])
+            self.emit(f"net rmp {oid}")
+        elif op == "rma":
+            n.remove_by_address(UDPv4Address(*addr))
+            self.emit(f"net rma {hx(self.addr_bytes(addr))}")
+        elif op == "seta":
+            self.peers[oid].address = UDPv4Address(*addr)
+            self.emit(f"net seta {oid} {hx(self.addr_bytes(addr))}")
+        self.ctx.count(f"recv:network-op:{op}")
+
+    # ---- re-entrancy: what a listener does to the endpoint's registry while it handles a datagram
+    def set_script(self, listener, ops: list):
+        """ops: ("add", obj) | ("addp", obj, prefix) | ("rm", obj) | ("open", bool)"""
+        lid = self.lid(listener)
+        self.scripts[lid] = ops
+        enc = []
+        for op in ops:
+            if op[0] in ("add", "rm"):
+                enc.append(f"{op[0]}:{self.lid(op[1])}")
+            elif op[0] == "addp":
+                enc.append(f"addp:{self.lid(op[1])}:{hx(op[2])}")
+            else:
+                enc.append(f"open:{1 if op[1] else 0}")
+        self.emit(f"fx {lid} {','.join(enc) if enc else '-'}")
+
+    def run_script(self, lid: int):
+        for op in self.scripts.get(lid, ()):
+            self.ctx.count(f"recv:reentrant-op:{op[0]}")
+            if op[0] == "add":
+                self.ep.add_listener(op[1])
+            elif op[0] == "addp":
+                self.ep.add_prefix_listener(op[1], op[2])
+            elif op[0] == "rm":
+                self.ep.remove_listener(op[1])
+            elif op[1]:
+                self.ep.open()
+            else:
+                self.ep.close()
 
     # ---- listeners
     def add_overlay(self, cls, settings=None, peer=None):
         from ipv8.keyvault.crypto import default_eccrypto
         from ipv8.peer import Peer
-        from ipv8.peerdiscovery.network import Network
         peer = peer or Peer(default_eccrypto.generate_key("curve25519"), self.ep.wan_address)
-        st = cls.settings_class(my_peer=peer, endpoint=self.ep, network=Network())
+        st = cls.settings_class(my_peer=peer, endpoint=self.ep, network=self.network)
         if settings is not None:
             settings.__dict__.update(st.__dict__)
             st = settings
@@ -640,7 +736,10 @@ class World:
 
         def on_packet(packet, *a, **kw):
             self.events.append(f"c{lid}")
-            return real(packet, *a, **kw)
+            self.last_called = lid
+            r = real(packet, *a, **kw)
+            self.run_script(lid)          # the listener calls back into its endpoint before it returns
+            return r
         listener.on_packet = on_packet
 
     def add_inert(self, global_: bool = True, prefix: bytes | None = None):
@@ -650,8 +749,11 @@ class World:
         class Inert(EndpointListener):
             def on_packet(self, packet):
                 world.events.append(f"c{world.lid(self)}")
+                world.run_script(world.lid(self))
         li = Inert(self.ep)
         self.emit(f"inert {self.lid(li)}")
+        if not global_ and prefix is None:
+            return li
         if prefix is not None:
             self.ep.add_prefix_listener(li, prefix)
         else:
@@ -698,7 +800,12 @@ class World:
 
     # ---- one datagram
     def replay(self, data: bytes) -> dict:
-        return {"kind": "receive", "world": self.name, "datagram": bytes(data).hex(), "model_lines": len(self.lines)}
+        r = {"kind": "receive", "world": self.name, "datagram": bytes(data).hex(), "model_lines": len(self.lines)}
+        if self.scripts or self.model_net or self.name == "history":
+            # history-dependent worlds: the operation history (registry calls, listener behaviours `fx`, Network calls
+            # `net`, earlier datagrams) in line-protocol form, newest last
+            r["history"] = [ln[:400] for ln in self.lines[-250:]]
+        return r
 
     def expected_recipients(self, data: bytes):
         """the harness' own reading of the property: listeners registered for this prefix, or the global ones"""
@@ -708,19 +815,25 @@ class World:
         anyp = any(q == p for _, q in self.registered)
         return (pref + glob) if anyp else glob
 
-    def notify(self, data: bytes, label: str, via=None):
+    def notify(self, data: bytes, label: str, via=None, src=SRC_ADDR):
+        from ipv8.messaging.interfaces.udp.endpoint import UDPv4Address
         ctx = self.ctx
         self.sync_crypto()
         dec = self.dec_oracle(data)
         self.events = []
         self.current = data
         exn = "none"
+        expected = self.expected_recipients(data) if self.ep.is_open() else []
+        # listeners that some script removes, and scripts that close the endpoint, legitimately change who is called
+        removed = {self.lid(op[1]) for ops in self.scripts.values() for op in ops if op[0] == "rm"}
+        closes = any(op[0] == "open" and not op[1] for ops in self.scripts.values() for op in ops)
         try:
             if ctx.counts.get("oracle-failure:Endpoint.notify_listeners:hang", 0) >= 2:
                 return
+            self.in_dispatch = True
             with watchdog(10):
                 if via is None:
-                    self.ep.notify_listeners((SRC_ADDR, data))
+                    self.ep.notify_listeners((UDPv4Address(*src), data))
                 else:
                     via(data)
         except Hang:
@@ -731,12 +844,14 @@ class World:
             fail(ctx, f"{site_of(e)}:{type(e).__name__}",
                             f"{type(e).__name__} ({str(e)[:120]}) escaped from notify_listeners for a {len(data)}-byte "
                             f"datagram [{label}] in world {self.name}", self.replay(data))
+        finally:
+            self.in_dispatch = False
         if self.harness_errors:
             raise InfraError("harness instrumentation failed: " + self.harness_errors[0])
         called = {int(e[1:]) for e in self.events if e.startswith("c")}
-        if exn == "none" and self.ep.is_open():
-            for l in self.expected_recipients(data):
-                if l not in called:
+        if exn == "none" and not closes:
+            for l in expected:
+                if l not in called and l not in removed:
                     fail(ctx, "Endpoint.notify_listeners:listener-skipped",
                                     f"listener {type(self.objs[l]).__name__} registered for this datagram was not called "
                                     f"[{label}] in world {self.name}", self.replay(data))
@@ -744,9 +859,11 @@ class World:
         ctx.count(f"recv:len:{'0-21' if len(data) < 22 else '22' if len(data) == 22 else '23-29' if len(data) < 30 else '30-199' if len(data) < 200 else '200+'}")
         ctx.count(f"recv:handlers_entered:{min(sum(1 for e in self.events if e[0] in 'pq'), 3)}")
         ctx.count(f"recv:dec:{dec.split(':')[0]}")
-        ctx.case((self.name, len(self.lines), data), label not in ("random",))
-        self.lines.append(f"notify {hx(data)} {dec}")
-        self.expect.append((" ".join(self.events) + " exn=none", exn, self.replay(data), label))
+        ctx.case((self.name, len(self.lines), data, src), label not in ("random",))
+        if any(self.scripts.values()):
+            ctx.count(f"recv:reentrant-dispatch:recipients:{min(len(expected), 4)}")
+        self.lines.append(f"notify {hx(self.addr_bytes(src))} {hx(data)} {dec}")
+        self.expect.append((" ".join(self.events) + " exn=none", exn, dict(self.replay(data), src=list(src)), label))
 
     def compare(self, use_model: bool):
         if not use_model:
@@ -760,6 +877,8 @@ class World:
             impl, exn, replay, label = exp
             if exn != "none":
                 continue     # already an oracle failure
+            if not self.model_net:
+                model = " ".join(t for t in model.split(" ") if not t.startswith("s"))
             if model.strip() != impl.strip():
                 self.ctx.disagree(f"world {self.name} [{label}]: model `{model[:200]}` != implementation `{impl[:200]}` "
                                   f"on a {len(replay['datagram']) // 2}-byte datagram", dict(replay, line=ln[:3200]))
@@ -1056,11 +1175,24 @@ async def run_receive(ctx: Ctx, use_model: bool, quick: bool):
     w.add_inert()
     worlds.append(w)
 
+    def churn(w):
+        """unmodelled Network churn (oracle only): peers that handlers verified are removed again, so the next datagram
+        from their address meets whatever is left in the Network's caches"""
+        for peer in list(w.network.verified_peers)[:3]:
+            how = rng.choice(["remove_peer", "remove_by_address", "keep"])
+            ctx.count(f"recv:churn:{how}")
+            if how == "remove_peer":
+                w.network.remove_peer(peer)
+            elif how == "remove_by_address":
+                w.network.remove_by_address(peer.address)
+
     for w in worlds:
         n = 0
         for label, data in gen_datagrams(ctx, w, quick, orig_handlers, cls_descs):
             w.notify(data, label)
             n += 1
+            if n % 25 == 0:
+                churn(w)
             if n % 200 == 0:
                 await asyncio.sleep(0)
                 await asyncio.sleep(0)
@@ -1108,7 +1240,117 @@ async def run_receive(ctx: Ctx, use_model: bool, quick: bool):
     w.ep.open()
     worlds.append(w)
 
-    # 5. the real UDP transport callback
+    # 5. re-entrancy: listeners that call back into the endpoint's registry while a datagram is being dispatched
+    #    (one-shot listeners, overlays that detach on a message, listeners that register helpers, close on demand)
+    w = World(ctx, "reentrant")
+    by_name = {n: (c, mk) for n, c, mk in all_specs}
+    pc = add(w, *by_name["ProbeCommunity"])
+    dc = add(w, *by_name["DiscoveryCommunity"])
+    tc = add(w, *by_name["TunnelCommunity"])
+    PP, DP = bytes(pc.get_prefix()), bytes(dc.get_prefix())
+    glob = [w.add_inert(), w.add_inert(), w.add_inert()]
+    pinert = [w.add_inert(prefix=PP), w.add_inert(prefix=DP)]
+    spares = [w.add_inert(global_=False) for _ in range(3)]        # never get a script: keeps every dispatch finite
+    actors = glob + pinert + [pc, dc, tc.crypto_endpoint]
+    everyone = actors + spares
+    for step in range(120 if quick else 1500):
+        # a fresh small registration (ordinary, non re-entrant calls) so that the listener lists stay short
+        w.ep.open()
+        w.emit("open 1")
+        for x in everyone:
+            w.ep.remove_listener(x)
+        for x in actors:
+            how = rng.random()
+            if how < 0.45:
+                w.ep.add_listener(x)
+            elif how < 0.85:
+                w.ep.add_prefix_listener(x, rng.choice([PP, DP, bytes(tc.get_prefix())]))
+        for x in actors:
+            if w.scripts.get(w.lid(x)):
+                w.set_script(x, [])
+        # a new behaviour for one to three listeners
+        for _ in range(rng.choice([1, 2, 3])):
+            x = rng.choice(actors)
+            ops = []
+            for _ in range(rng.choice([0, 1, 1, 2, 3])):
+                k = rng.choice(["rm-self", "rm-self", "rm-other", "rm-other", "add", "addp", "close", "open"])
+                if k == "rm-self":
+                    ops.append(("rm", x))
+                elif k == "rm-other":
+                    ops.append(("rm", rng.choice(everyone)))
+                elif k == "add":
+                    ops.append(("add", rng.choice(spares)))
+                elif k == "addp":
+                    ops.append(("addp", rng.choice(spares), rng.choice([PP, DP, bytes(range(22))])))
+                elif k == "close" and rng.random() < 0.3:
+                    ops.append(("open", False))
+                elif k == "open":
+                    ops.append(("open", True))
+            w.set_script(x, ops)
+        for _ in range(4):
+            which = rng.random()
+            if which < 0.35:
+                d = PP + bytes([rng.choice([1, 2, 40, 60, 61, 200])]) + rbytes(rng, rng.choice([0, 2, 9]))
+            elif which < 0.6:
+                d = DP + bytes([rng.choice([1, 3, 246, 7])]) + rbytes(rng, rng.choice([0, 5]))
+            elif which < 0.75:
+                d = bytes(tc.get_prefix()) + bytes([rng.choice([0, 8, 1])]) + rbytes(rng, rng.choice([0, 6, 12]))
+            else:
+                d = rbytes(rng, rng.choice([3, 22, 40]))
+            w.notify(d, "reentrant")
+    for x in actors:
+        w.set_script(x, [])
+    worlds.append(w)
+
+    # 6. sender history: verified peers come, talk, change address, are removed (by object or by address), come back;
+    #    datagrams arrive from their current, former and unknown addresses; every Network call is mirrored into the model
+    w = World(ctx, "sender-history", model_net=True)
+    pc = add(w, *by_name["ProbeCommunity"])
+    dc = add(w, *by_name["DiscoveryCommunity"])      # (DHTCommunity keeps a private Network of its own)
+    w.add_inert()
+    PP, DP = bytes(pc.get_prefix()), bytes(dc.get_prefix())
+    addrs = [("10.0.0.%d" % i, 1000 + i) for i in range(1, 6)]
+    holders = lambda a: [q for q in w.network.verified_peers if tuple(a) in [tuple(v) for v in q.addresses.values()]]  # noqa: E731
+    for step in range(150 if quick else 2500):
+        for _ in range(rng.choice([1, 1, 2, 3])):
+            op = rng.choice(["new", "new", "addv", "rmp", "rmp", "rma", "seta", "addv"])
+            if op == "new" and len(w.peers) < 400:
+                a = rng.choice(addrs)
+                if not holders(a):
+                    oid = w.new_peer(rng.randrange(4), a)
+                    w.net_op("addv", oid)
+            elif op in ("addv", "rmp", "seta") and w.peers:
+                oid = rng.choice(list(w.peers))
+                p = w.peers[oid]
+                if op == "rmp":
+                    w.net_op("rmp", oid)
+                elif op == "seta":
+                    a = rng.choice(addrs)
+                    if not [q for q in holders(a) if q is not p] and not p.address_frozen:
+                        w.net_op("seta", oid, a)
+                else:
+                    known = w.network.verified_by_public_key_bin.get(p.public_key.key_to_bin())
+                    target = known if known is not None else p
+                    if not [q for q in holders(p.address) if q is not target]:
+                        w.net_op("addv", oid)
+            elif op == "rma":
+                w.net_op("rma", addr=rng.choice(addrs))
+        for _ in range(3):
+            src = rng.choice(addrs) if rng.random() < 0.85 else ("10.9.9.9", rng.randrange(1, 60000))
+            which = rng.random()
+            if which < 0.5:
+                d = PP + bytes([rng.choice([1, 2, 40, 60, 61])]) + rbytes(rng, rng.choice([0, 8]))
+            elif which < 0.7:
+                d = DP + bytes([rng.choice([3, 200])]) + rbytes(rng, 4)
+            elif which < 0.85:
+                d = PP[:rng.randrange(23)]
+            else:
+                d = rbytes(rng, rng.choice([0, 22, 30]))
+            w.notify(d, "sender-history", src=src)
+            ctx.count("recv:sender:" + ("known" if holders(src) else "unknown-or-former"))
+    worlds.append(w)
+
+    # 7. the real UDP transport callback
     await run_udp(ctx, rng, Probe)
 
     for _ in range(5):
